@@ -227,6 +227,11 @@ func (c08) Run(e *Env) {
 				if t.Count != 0 || t.PerSecond != 0 || len(t.Percentiles) != 0 {
 					e.Failf("C08/idle-not-zero", "%s: count=%d per-second=%v percentiles=%v", where, t.Count, t.PerSecond, t.Percentiles)
 				}
+				// nothing was received in this interval: whatever is reported besides the zero count must
+				// not be the statistics of an earlier interval's values
+				if t.Sum != 0 || t.SumSquares != 0 || t.Min != 0 || t.Max != 0 || t.Mean != 0 || t.Median != 0 || t.StdDev != 0 {
+					e.Failf("C08/idle-carries-old-statistics", "%s: no value was received in this interval, yet min=%v max=%v sum=%v sum_squares=%v mean=%v median=%v stddev=%v", where, t.Min, t.Max, t.Sum, t.SumSquares, t.Mean, t.Median, t.StdDev)
+				}
 				continue
 			}
 			if n == 1 {
